@@ -37,8 +37,8 @@ fn spread(v: &[i64], p: u64) -> Vec<Vec<StreamElement<i64>>> {
 }
 
 #[allow(clippy::too_many_arguments)]
-fn scenario(lk: LoopKind, comb: Combine, input: Vec<i64>, side: Vec<i64>, rounds: usize, p: u64, batch: BatchMode, bound: usize) -> Scenario {
-    let name = format!("C11/{:?}-{:?}/in{:?}/side{:?}/rounds{rounds}/p{p}/{:?}", lk, comb, input, side, batch).replace(' ', "");
+fn scenario(lk: LoopKind, comb: Combine, side_left: bool, input: Vec<i64>, side: Vec<i64>, rounds: usize, p: u64, batch: BatchMode, bound: usize) -> Scenario {
+    let name = format!("C11/{:?}-{:?}-sideleft{side_left}/in{:?}/side{:?}/rounds{rounds}/p{p}/{:?}", lk, comb, input, side, batch).replace(' ', "");
     let descr = format!("{:?} of {rounds} rounds whose body combines ({:?}) the loop stream {:?} with an outside stream {:?}; parallelism {p}, batch mode {:?}", lk, comb, input, side, batch);
     let (input2, side2) = (input.clone(), side.clone());
     let body: crate::rt::Body = Arc::new(move || {
@@ -49,13 +49,19 @@ fn scenario(lk: LoopKind, comb: Combine, input: Vec<i64>, side: Vec<i64>, rounds
         let side_stream = env.stream(ScriptSource::new(spread(&side_vals, p), Replication::Unlimited)).batch_mode(batch);
         macro_rules! body {
             () => {
-                move |s, _st| match comb {
-                    Combine::Merge => erase(probe(s.merge(side_stream), SIDE_PROBE)),
-                    Combine::JoinHash => erase(probe(
+                move |s, _st| match (comb, side_left) {
+                    (Combine::Merge, false) => erase(probe(s.merge(side_stream), SIDE_PROBE)),
+                    // the outside stream as the receiver of the operator
+                    (Combine::Merge, true) => erase(probe(side_stream.merge(s), SIDE_PROBE)),
+                    (Combine::JoinHash, false) => erase(probe(
                         erase(s.join(side_stream, |x: &i64| x % 2, |y: &i64| y % 2).unkey().map(|(_, (l, r))| l * 10_000 + r)),
                         SIDE_PROBE,
                     )),
-                    Combine::JoinBroadcast => erase(probe(
+                    (Combine::JoinHash, true) => erase(probe(
+                        erase(side_stream.join(s, |y: &i64| y % 2, |x: &i64| x % 2).unkey().map(|(_, (r, l))| l * 10_000 + r)),
+                        SIDE_PROBE,
+                    )),
+                    (Combine::JoinBroadcast, _) => erase(probe(
                         erase(
                             s.join_with(side_stream, |x: &i64| x % 2, |y: &i64| y % 2)
                                 .ship_broadcast_right()
@@ -125,7 +131,7 @@ fn scenario(lk: LoopKind, comb: Combine, input: Vec<i64>, side: Vec<i64>, rounds
     let mut fin = cur.clone();
     fin.sort();
     let d2 = descr.clone();
-    let tagk = format!("{:?}-{:?}", lk, comb);
+    let tagk = format!("{:?}-{:?}{}", lk, comb, if side_left { "-sideleft" } else { "" });
     let check: Check = Arc::new(move |r| {
         match &r.status {
             Status::Done => {}
@@ -185,6 +191,7 @@ fn scenario(lk: LoopKind, comb: Combine, input: Vec<i64>, side: Vec<i64>, rounds
         max_execs: 0,
         shards: 1,
         nontrivial: !side.is_empty() && rounds >= 2,
+        unbounded: false,
     }
 }
 
@@ -205,7 +212,10 @@ fn build(tier: Tier) -> Vec<Scenario> {
                             if tier == Tier::Quick && batch == BatchMode::fixed(1024) && rounds == 1 {
                                 continue;
                             }
-                            out.push(scenario(lk, comb, vec![2, 5], side.clone(), rounds, p, batch, bound));
+                            out.push(scenario(lk, comb, false, vec![2, 5], side.clone(), rounds, p, batch, bound));
+                            if comb != Combine::JoinBroadcast && rounds >= 2 {
+                                out.push(scenario(lk, comb, true, vec![2, 5], side.clone(), rounds, p, batch, bound));
+                            }
                         }
                     }
                 }
